@@ -54,6 +54,11 @@ def build_equilibrium(cfg):
         wall = list(wall[k:]) + list(wall[:k])
         if cfg.get("wall_closed"):                 # ... and may or may not repeat the first point at the end
             wall = list(wall) + [wall[0]]
+        if cfg.get("gfile"):
+            eq, arrays = E.make_tokamak_gfile(cfg["geometry"], opts, fpol=fpol_func(cfg.get("fpol")), pressure=pressure_func(cfg.get("pressure")),
+                                              wall=wall, mirror=cfg.get("mirror", False), psi_sign=cfg.get("psi_sign", 1.0),
+                                              nR=cfg.get("nR", 65), nZ=cfg.get("nZ", 65), psi_scale=cfg.get("psi_scale", 1.0))
+            return eq, opts, arrays
         eq, arrays = E.make_tokamak(cfg["geometry"], opts, fpol=fpol_func(cfg.get("fpol")), pressure=pressure_func(cfg.get("pressure")),
                                     wall=wall, mirror=cfg.get("mirror", False), psi_sign=cfg.get("psi_sign", 1.0),
                                     nR=cfg.get("nR", 65), nZ=cfg.get("nZ", 65), psi1d_rmax=cfg.get("psi1d_rmax"), psi_scale=cfg.get("psi_scale", 1.0))
